@@ -9,9 +9,11 @@ MISSING = None
 
 
 class Record:
-    __slots__ = ("contig", "pos", "id", "ref", "alts", "qual", "filt", "info", "gts", "extra_fmt")
+    __slots__ = ("contig", "pos", "id", "ref", "alts", "qual", "filt", "info", "gts", "extra_fmt", "no_gt")
 
-    def __init__(self, contig, pos, gts, ref="A", alts=("C",), id=".", qual=None, filt=None, info=None, extra_fmt=None):
+    def __init__(self, contig, pos, gts, ref="A", alts=("C",), id=".", qual=None, filt=None, info=None, extra_fmt=None, no_gt=False):
+        # no_gt: the record has FORMAT fields but no GT key (valid VCF/BCF); `gts` must then be all-missing diploid genotypes
+        self.no_gt = no_gt
         self.contig, self.pos, self.gts = contig, pos, gts
         self.ref, self.alts, self.id, self.qual, self.filt = ref, list(alts), id, qual, filt
         self.info = info or {}            # {"DP": 12, "AF": [0.5], "DB": True}
@@ -105,10 +107,10 @@ class CallSet:
         cols = [r.contig, str(r.pos), r.id, r.ref, ",".join(r.alts) if r.alts else ".", qual,
                 ";".join(r.filt) if r.filt else ".", ";".join(info) if info else "."]
         if self.samples:
-            keys = ["GT"] + list(r.extra_fmt.keys())
+            keys = ([] if r.no_gt else ["GT"]) + list(r.extra_fmt.keys())
             cols.append(":".join(keys))
             for si, g in enumerate(r.gts):
-                vals = [gt_str(g)] + [self._fmt_val(r.extra_fmt[k][si]) for k in r.extra_fmt]
+                vals = ([] if r.no_gt else [gt_str(g)]) + [self._fmt_val(r.extra_fmt[k][si]) for k in r.extra_fmt]
                 # trailing missing fields may be dropped (VCF spec); do so deterministically for odd samples
                 if si % 2 == 1:
                     while len(vals) > 1 and vals[-1] == ".":
@@ -145,7 +147,7 @@ class CallSet:
         shared.append(struct.pack("<I", 0x7F800001) if r.qual is None else struct.pack("<f", float(r.qual)))
         n_info = len(r.info)
         shared.append(struct.pack("<HH", n_info, n_allele))
-        n_fmt = (1 + len(r.extra_fmt)) if self.samples else 0
+        n_fmt = ((0 if r.no_gt else 1) + len(r.extra_fmt)) if self.samples else 0
         shared.append(struct.pack("<I", (n_fmt << 24) | len(self.samples)))
         shared.append(typed_string("" if r.id == "." else r.id))
         shared.append(typed_string(r.ref))
@@ -169,22 +171,22 @@ class CallSet:
         shared = b"".join(shared)
         indiv = []
         if self.samples:
-            # GT
-            indiv.append(typed_ints([dict_idx["GT"]]))
-            ploidy = max(len(g[0]) for g in r.gts)
-            maxallele = max([a for g in r.gts for a in g[0] if a is not None] + [0])
-            wide = gt_int16 or ((maxallele + 1) << 1 | 1) > 127
-            code, fmt, eov = (2, "<h", -32767) if wide else (1, "<b", -127)
-            indiv.append(type_descriptor(ploidy, code))
-            vals = []
-            for alleles, ph in r.gts:
-                for j, a in enumerate(alleles):
-                    phased = 1 if (j > 0 and ph[j - 1]) else 0
-                    v = (0 if a is None else (a + 1) << 1) | phased
-                    vals.append(struct.pack(fmt, v))
-                for _ in range(ploidy - len(alleles)):
-                    vals.append(struct.pack(fmt, eov))
-            indiv.append(b"".join(vals))
+            if not r.no_gt:
+                indiv.append(typed_ints([dict_idx["GT"]]))
+                ploidy = max(len(g[0]) for g in r.gts)
+                maxallele = max([a for g in r.gts for a in g[0] if a is not None] + [0])
+                wide = gt_int16 or ((maxallele + 1) << 1 | 1) > 127
+                code, fmt, eov = (2, "<h", -32767) if wide else (1, "<b", -127)
+                indiv.append(type_descriptor(ploidy, code))
+                vals = []
+                for alleles, ph in r.gts:
+                    for jj, a in enumerate(alleles):
+                        phased = 1 if (jj > 0 and ph[jj - 1]) else 0
+                        v = (0 if a is None else (a + 1) << 1) | phased
+                        vals.append(struct.pack(fmt, v))
+                    for _ in range(ploidy - len(alleles)):
+                        vals.append(struct.pack(fmt, eov))
+                indiv.append(b"".join(vals))
             for k, per_sample in r.extra_fmt.items():
                 indiv.append(typed_ints([dict_idx[k]]))
                 num, typ = self.fmt_defs[k]
@@ -248,7 +250,8 @@ def typed_string(s):
 BGZF_EOF = bytes.fromhex("1f8b08040000000000ff0600424302001b0003000000000000000000")
 
 
-def bgzf_block(data, level=6):
+def bgzf_block(data, level=6, mtime=0, xfl=0, os_=0xFF):
+    """One BGZF block. MTIME / XFL / OS are free per RFC 1952 and the SAM spec (bgzip writes 0 / 0 / 0xff)."""
     assert len(data) <= 65280
     if level == 0:
         # stored deflate block
@@ -258,11 +261,11 @@ def bgzf_block(data, level=6):
         comp = c.compress(data) + c.flush()
     bsize = len(comp) + 25
     assert bsize < 65536
-    head = b"\x1f\x8b\x08\x04\x00\x00\x00\x00\x00\xff\x06\x00BC\x02\x00" + struct.pack("<H", bsize)
+    head = b"\x1f\x8b\x08\x04" + struct.pack("<IBB", mtime, xfl, os_) + b"\x06\x00BC\x02\x00" + struct.pack("<H", bsize)
     return head + comp + struct.pack("<II", zlib.crc32(data) & 0xFFFFFFFF, len(data))
 
 
-def bgzf(data, cuts=None, level=6, empty_blocks=(), eof_markers=1):
+def bgzf(data, cuts=None, level=6, empty_blocks=(), eof_markers=1, header_rng=None):
     """BGZF-compress `data`. cuts: sorted offsets at which a new block starts (besides 0).
     empty_blocks: indices (in block order) before which an empty block is inserted."""
     cuts = sorted(set(c for c in (cuts or []) if 0 < c < len(data)))
@@ -280,7 +283,10 @@ def bgzf(data, cuts=None, level=6, empty_blocks=(), eof_markers=1):
     for i, p in enumerate(pieces):
         if i in empty_blocks:
             out.append(bgzf_block(b"", level if level else 6))
-        out.append(bgzf_block(p, level))
+        if header_rng is not None:
+            out.append(bgzf_block(p, level, mtime=header_rng.choice([0, 1, 1700000000, 0xFFFFFFFF]), xfl=header_rng.choice([0, 2, 4]), os_=header_rng.choice([0xFF, 3, 0, 7])))
+        else:
+            out.append(bgzf_block(p, level))
     out.append(BGZF_EOF * eof_markers)
     return b"".join(out)
 
@@ -318,4 +324,10 @@ def layouts(data, unit_cuts, rng, kinds=None):
             out[k] = bgzf(data, unit_cuts[::4], eof_markers=2)
         elif k == "tiny":
             out[k] = bgzf(data, list(range(7, len(data), 7)))
+        elif k == "tinyfirst":
+            # the first data block holds only 1 or 2 payload bytes
+            out[k] = bgzf(data, [rng.choice([1, 2])] + unit_cuts[::3])
+        elif k == "odd_header":
+            # gzip member headers with non-default MTIME / XFL / OS bytes (free fields), several blocks
+            out[k] = bgzf(data, unit_cuts[::2] or [max(1, len(data) // 2)], header_rng=rng)
     return out
